@@ -28,6 +28,8 @@ def check_one(case, ctx, deep):
         for i, (ext, intent) in enumerate(cs):
             c = by[i]
             q = lambda: {'table': plain, 'concept': list(positions(ext))}
+            if bin(intent).count('1') > 10 and ext:
+                continue   # 2**|intent| subsets per concept: 'intents of bounded size' (mid / wide tables)
             if ext:
                 gens = ref.generators(i)
             else:
